@@ -224,8 +224,13 @@ def suite_mr_files(seed, tier):
     n_cases = 25 if tier == "quick" else 500
     terms, meta = [], []
     stats = {"refine": {}, "rounds": {}, "failed_runs": 0, "unpacked": 0}
-    for _ in range(n_cases):
-        case = gen_mr_case(rng)
+    for _k in range(n_cases):
+        # one case in eight has 11-13 small input files and bin size 1 or 2: task and batch labels
+        # then need two digits in one round and one digit in the next
+        case = gen_mr_case(rng, nfiles=rng.choice([11, 12, 13])) if _k % 8 == 5 else gen_mr_case(rng)
+        if _k % 8 == 5:
+            case["cfg"]["bin"] = rng.choice([1, 2])
+            case["cfg"]["rounds"] = rng.choice([1, 2])
         with tempfile.TemporaryDirectory(prefix="verif_mr_") as tmp:
             tmp = Path(tmp)
             (tmp / "in").mkdir()
